@@ -101,6 +101,41 @@ func runC12(r *Run) {
 			}
 			return true
 		})
+		// the mirrored normal forms: (total x A).Cmp(power x B) < 0 | == -1 | <= -1 | 0 > X.Cmp(Y)
+		ast.Inspect(v.Decl.Body, func(n ast.Node) bool {
+			rs, isRet := n.(*ast.ReturnStmt)
+			if !isRet || len(rs.Results) != 1 {
+				return true
+			}
+			be, isBin := stripParens(rs.Results[0]).(*ast.BinaryExpr)
+			if !isBin {
+				return true
+			}
+			l, rr, op := be.X, be.Y, be.Op
+			if exprString(l) == "0" && op == token.GTR {
+				l, rr, op = rr, l, token.LSS
+			}
+			strict := (op == token.LSS && exprString(rr) == "0") || (op == token.EQL && exprString(rr) == "-1") || (op == token.LEQ && exprString(rr) == "-1")
+			recv, name, args, isCall := methodCall(l)
+			if !strict || !isCall || name != "Cmp" || len(args) != 1 {
+				return true
+			}
+			mulOf := func(e ast.Expr, param types.Object, thr string) bool {
+				_, nm, a, isC := methodCall(e)
+				if !isC || nm != "Mul" || len(a) != 2 {
+					return false
+				}
+				x, y := a[0], a[1]
+				if v.objOf(y) == param {
+					x, y = y, x
+				}
+				return v.objOf(x) == param && strings.Contains(exprString(y), thr)
+			}
+			if mulOf(recv, pTot, "ThresholdA") && mulOf(args[0], pPow, "ThresholdB") {
+				ok = true
+			}
+			return true
+		})
 		noDiv := true
 		for _, c := range allCalls(v.Decl.Body) {
 			if _, nm, _, isC := methodCall(c); isC && (nm == "Div" || nm == "Quo" || nm == "Rsh" || nm == "QuoRem" || nm == "DivMod") {
